@@ -25,6 +25,9 @@ func mkTok(t hclsyntax.Token) tok {
 	if t.Type == hclsyntax.TokenComment {
 		b = strings.TrimRight(b, "\r\n")
 	}
+	if t.Type == hclsyntax.TokenCHeredoc {
+		b = strings.TrimRight(b, " \t") // spaces between the marker and its line end
+	}
 	return tok{t.Type, b}
 }
 
